@@ -184,6 +184,59 @@ def rdata_class(layout, ty: int, data: bytes) -> str:
     return "plain"
 
 
+def layout_mismatch(layout, ty: int, raw: bytes) -> bool:
+    """the RDATA as it stands in a message (names possibly compressed) does not match the RFC layout of its type:
+    a fixed field or character-string is cut short, or a name field does not end (terminator or pointer) inside the
+    RDATA / meets a reserved label type. This is when expand_record_data falls back to its heuristic."""
+    if ty not in layout: return False
+    i = 0
+    for f in layout[ty]:
+        if f == NAME:
+            while True:
+                if i >= len(raw): return True
+                sz = raw[i]
+                if sz >= 192:
+                    if i + 2 > len(raw): return True
+                    i += 2; break
+                if sz >= 64 or i + 1 + sz > len(raw): return True
+                i += 1 + sz
+                if sz == 0: break
+        else:
+            if f == CSTR:
+                if i >= len(raw): return True
+                f = 1 + raw[i]
+            if i + f > len(raw): return True
+            i += f
+    return False
+
+
+def locate_records(buf: bytes):
+    """[(type, raw RDATA)] of all resource records in message order, found by skipping names without following
+    pointers; None if the sections do not fit the buffer"""
+    try:
+        nq, nan, nns, nar = struct.unpack_from("!HHHH", buf, 4)
+        pos = 12
+
+        def skip_name(p):
+            while True:
+                sz = buf[p]
+                if sz >= 192: return p + 2
+                if sz >= 64: raise IndexError
+                p += 1 + sz
+                if sz == 0: return p
+        for _ in range(nq):
+            pos = skip_name(pos) + 4
+        out = []
+        for _ in range(nan + nns + nar):
+            pos = skip_name(pos)
+            t, _, _, ln = struct.unpack_from("!HHIH", buf, pos); pos += 10
+            if pos + ln > len(buf): return None
+            out.append((t, bytes(buf[pos:pos + ln]))); pos += ln
+        return out
+    except (IndexError, struct.error):
+        return None
+
+
 def canonical_name(name: str) -> bool:
     """IDNA-canonical: every part is a fixed point of decode∘encode and fits a label"""
     if name == "": return True
